@@ -232,6 +232,20 @@ func mkTDocSeeded(seed uint64) *TDoc {
 	for i := range d.PObjs {
 		d.PObjs[i] = &TObj{float64(next() % 30), string(rune('a' + next()%20)), nil, TTag{"pt", 2}}
 	}
+	// nil pointers where another document of the same type has a value (and the other
+	// way round): per-type memos must not remember what one VALUE looked like
+	nilBits := next()
+	if nilBits%4 == 0 {
+		d.P = nil
+	}
+	if nilBits&16 != 0 {
+		d.NilP = &TObj{9, "was-nil", []int{1}, TTag{"tn", 3}}
+	}
+	for i := range d.PObjs {
+		if (nilBits>>(8+uint(i)))&3 == 0 || (i == 0 && nilBits&32 != 0) {
+			d.PObjs[i] = nil
+		}
+	}
 	d.Grid = make([][]int, n()%7)
 	for i := range d.Grid {
 		d.Grid[i] = make([]int, next()%5)
